@@ -964,7 +964,7 @@ def gen_handshake(real, rng, cid, script=None):
     t = BASE_T + rng.randint(0, 3000)
     script = script or rng.choice(["honest", "honest", "flip-client-hello", "flip-server-hello", "foreign-root", "resigned", "other-session",
                                     "wrong-token", "other-key-challenge", "dup-reorder", "tofu", "pinned-other", "trunc-ext", "early-app",
-                                    "no-answer", "stacked", "early-send"])
+                                    "no-answer", "stacked", "early-send", "late-hello"])
 
     def emit(line):
         o = run.exec(line)
@@ -1067,6 +1067,14 @@ def gen_handshake(real, rng, cid, script=None):
             kc2 = built("c2")
             deliver("s2", "c2", kc2)
             ks2 = built("s2")
+        if script == "late-hello":
+            # the genuine server hello is slow: the client polls past its connect time-out (callback False) before the hello arrives.
+            # If the client then takes it, it must end up with the key of the connection that signed it
+            t_end = t + rng.choice([2048, 2100, 2600, 4000])
+            while t < t_end:
+                t += rng.choice([100, 200, 300])
+                emit("cupd c t=%d" % t)
+                built("c")
         # ---- server hello -> client
         if ks is not None:
             slen = len(run.eps["s"]["emits"][ks])
